@@ -34,7 +34,7 @@ fn strat(tier: Tier) -> BoxedStrategy<Case> {
     1u32..9,
     "[a-z0-9]{0,6}",
     vec(
-      (bytes(60), prop_oneof![4 => Just(-1i8), 4 => Just(0i8), 3 => Just(1i8), 2 => -8i8..9], vec(prop_oneof![2 => Just(None), 1 => Just(Some(Hx(vec![]))), 3 => bytes(64).prop_map(Some)], 1..5))
+      (prop_oneof![6 => bytes(60), 1 => bytes(400)], prop_oneof![4 => Just(-1i8), 4 => Just(0i8), 3 => Just(1i8), 2 => -8i8..9], vec(prop_oneof![4 => Just(None), 2 => Just(Some(Hx(vec![]))), 6 => bytes(64).prop_map(Some), 1 => bytes(900).prop_map(Some)], 1..5))
         .prop_map(|(m, delta, aux)| Group { m, delta, aux }),
       1..gmax,
     ),
@@ -148,6 +148,12 @@ fn oracle(c: &Case, st: &mut Stats) -> Result<(), String> {
     }
   }
   st.class(&format!("groups>=t:{}", at.min(9)));
+  if c.groups.iter().any(|g| {
+    let long: Vec<&Hx> = g.aux.iter().flatten().filter(|a| g.m.len() + a.len() + 8 > 166).collect();
+    (g.delta >= 0) && long.len() >= 2 && long.iter().any(|a| a.0 != long[0].0)
+  }) {
+    st.class("revealed-group-with-differing-multi-block-payloads");
+  }
   if at > 0 && below > 0 {
     st.class("mixed-above-and-below");
     st.nontrivial(&(t, c.groups.len(), at, below, c.perm_seed, c.pools));
@@ -162,7 +168,7 @@ pub fn property() -> Property {
   Property {
     id: "C18",
     level: "exploration",
-    rule: "generated (t in 1..8, 1..40 groups quick / ..400 thorough with distinct measurements and sizes t-1 / t / t+1 / t-8..t+8, per-client aux absent / empty / bytes, a generated permutation of the flattened reports, two worker-pool sizes from 1..16); every case is run in grouped order, permuted order, and permuted order under the second pool size. Oracle: the output as a map measurement -> sorted multiset of associated data equals {groups with >= t reports}; no group missing, duplicated or below threshold; identical across orders and pool sizes. Non-trivial: at least one group >= t and one < t.",
+    rule: "generated (t in 1..8, 1..40 groups quick / ..400 thorough with distinct measurements and sizes t-1 / t / t+1 / t-8..t+8, per-client aux absent / empty / bytes (now and then several hundred bytes, so that payloads span several cipher blocks and differ in an early one), a generated permutation of the flattened reports, two worker-pool sizes from 1..16); every case is run in grouped order, permuted order, and permuted order under the second pool size. Oracle: the output as a map measurement -> sorted multiset of associated data equals {groups with >= t reports}; no group missing, duplicated or below threshold; identical across orders and pool sizes. Non-trivial: at least one group >= t and one < t.",
     assumptions: vec![
       "the reference server reports a present-but-empty associated datum as absent; both carry the same data and are compared as equal here (the absent/empty distinction is asserted at protocol level in C01)",
       "schedules are varied only through the rayon pool size; the harness does not own rayon's interleaving",
